@@ -222,7 +222,7 @@ func (r *Runner) ReplayEnc(b *Behaviour) {
 		tok int
 	}
 	var all []written
-	for _, st := range b.Hist {
+	for sti, st := range b.Hist {
 		fields := append([]string{}, st.W...)
 		sort.Strings(fields) // the specification writes the fields of a step in this order (SeqOf is deterministic per set; tokens are matched by field below)
 		switch st.Op {
@@ -382,7 +382,7 @@ func (r *Runner) ReplayEnc(b *Behaviour) {
 						where = "an update notification"
 					}
 					atCreate, peerBefore := false, false
-					for _, h := range b.Hist {
+					for _, h := range b.Hist[:sti+1] {
 						if h.Op == "create" {
 							for _, x := range h.W {
 								atCreate = atCreate || x == w.f
@@ -397,7 +397,7 @@ func (r *Runner) ReplayEnc(b *Behaviour) {
 						history = "field first written by an update"
 					}
 					if peerBefore {
-						history += ", a key-less peer wrote the field in this behaviour"
+						history += ", after a key-less peer wrote the field"
 					} else {
 						history += ", no peer write"
 					}
